@@ -207,6 +207,9 @@ func genExts(t *rapid.T) []ExtC {
 	for len(out) < n {
 		if rapid.IntRange(0, 3).Draw(t, "unk") == 0 || ki >= len(perm) {
 			arc := rapid.IntRange(0, 400).Draw(t, "arc")
+			if rapid.IntRange(0, 2).Draw(t, "arcodd") == 0 {
+				arc = rapid.IntRange(0, len(nearCT)-1).Draw(t, "arcoddv")
+			}
 			if usedArc[arc] {
 				arc = 401 + len(out)
 			}
@@ -356,14 +359,10 @@ func genCase(t *rapid.T, signedAnchor bool) Case {
 		c.PIAKICrit = rapid.IntRange(0, 5).Draw(t, "piakicrit") == 0
 		c.PIEKUShape = rapid.IntRange(0, 3).Draw(t, "piekushape")
 	}
-	c.PoisonPos = rapid.IntRange(0, 9).Draw(t, "poisonpos")
-	c.SCTPos = rapid.IntRange(0, 10).Draw(t, "sctpos")
-	switch rapid.IntRange(0, 5).Draw(t, "posmode") {
-	case 0:
-		c.PoisonPos = 99 // last
-	case 1:
-		c.SCTPos = 99
-	}
+	// positions are uniform over the slots that exist (the SCT position is clamped by the builder when the
+	// pre-issuer rewrite removes the AKI)
+	c.PoisonPos = rapid.IntRange(0, len(c.Exts)).Draw(t, "poisonpos")
+	c.SCTPos = rapid.IntRange(0, len(c.Exts)+1).Draw(t, "sctpos")
 	c.ExtraInChain = rapid.IntRange(0, 3).Draw(t, "extra") == 0
 
 	c.Timestamp = genTimestamp(t, "ts")
@@ -431,6 +430,8 @@ var nearCT = [][]int{
 	{1, 3, 6, 1, 4, 1, 11129, 2, 4, 1}, {1, 3, 6, 1, 4, 1, 11129, 2, 4, 5}, {1, 3, 6, 1, 4, 1, 11129, 2, 4},
 	{1, 3, 6, 1, 4, 1, 11129, 2, 4, 3, 1}, {1, 3, 6, 1, 4, 1, 11129, 2, 4, 2, 0}, {1, 3, 6, 1, 4, 1, 11129, 2, 4, 131},
 	{1, 3, 6, 1, 4, 1, 11129, 2, 5, 3}, {2, 5, 29, 35, 1}, {2, 5, 29, 36},
+	// not near anything, but awkward to re-encode: multi-octet first subidentifier, 31-bit arcs, a zero arc
+	{2, 999, 3}, {1, 3, 6, 1, 4, 1, 2147483647, 1}, {2, 25, 2147483647, 0, 127, 128, 16383, 16384}, {0, 9, 2342},
 }
 
 func akiValue(style int, seed string, n int) []byte {
@@ -880,13 +881,13 @@ func (w *World) buildList(c *Case, realSig bool) {
 	w.List = l
 }
 
-// listWith returns the TLS list with element i replaced.
+// listWith returns the TLS list with element i replaced (nil when the result would exceed 2^16-1 bytes).
 func (w *World) listWith(i int, sct []byte) []byte {
 	l := append([][]byte{}, w.SCTs...)
 	l[i] = sct
 	b, err := rfc6962.EncodeSCTList(l)
 	if err != nil {
-		panic(err)
+		return nil
 	}
 	return b
 }
@@ -988,11 +989,23 @@ func (w *World) classify(c *Case, v *harness.Verdict) {
 	if len(c.Subject) == 0 {
 		v.Class("subject-empty")
 	}
+	near, odd, crit := false, false, false
 	for _, e := range c.Exts {
-		if e.Kind == "unk" && e.Arc < len(nearCT) {
-			v.Class("near-ct-oid")
-			break
+		if e.Kind == "unk" && e.Arc < 9 {
+			near = true
+		} else if e.Kind == "unk" && e.Arc < len(nearCT) {
+			odd = true
 		}
+		crit = crit || e.Crit
+	}
+	if near {
+		v.Class("near-ct-oid")
+	}
+	if odd {
+		v.Class("odd-oid")
+	}
+	if crit {
+		v.Class("critical-content-ext")
 	}
 	v.Class(fmt.Sprintf("scts=%d", len(w.SCTs)), "list"+lenClass(len(w.List)-2))
 	if b := len(w.List) - 2; b >= 65336 {
